@@ -633,7 +633,7 @@ def _convert_columns_to_dots(scope: Scope, resolver: Resolver) -> None:
                     # Remove the actual column parts from the rest of dot parts
                     new_column.meta["dot_parts"] = dot_parts[2 if was_qualified else 1 :]
 
-                column.replace(exp.Dot.build([new_column, *parts]))
+                column.replace(exp.Dot.build([new_column, *(part.copy() for part in parts)]))
 
     if converted:
         # We want to re-aggregate the converted columns, otherwise they'd be skipped in
